@@ -314,7 +314,8 @@ class Enum(_Container):
 
     def dependencies(self):
         for member in self.members:
-            yield member.name
+            for dependency in member.dependencies():
+                yield dependency
 
 
 class _SerializableContainer(_Container, _Serializable):
